@@ -1,1 +1,51 @@
-From BS Require Import Core.Base.
+(* C08 - Library moves are physically executable and end where documented.
+   Model/Aod.v is the simulator that defines "physically executable" (the four conditions of the
+   property).  Proved here, for EVERY sequence of paths the simulator accepts, from ANY state:
+   no atom is lost or duplicated; and what acceptance of each elementary event means.  Whether a
+   particular library move produces accepted paths and ends where documented is decided by running
+   the library on its layouts (all sizes / index lists / offsets of the stated bounds) and feeding
+   the played paths to this simulator - evaluated both in Coq and by its Python twin.
+   Statements only. *)
+From Coq Require Import String.
+From Coq Require Import ZArith QArith List Bool Arith Permutation.
+From BS Require Import Core.Base Model.Aod Proofs.AodProofs.
+Import ListNotations.
+
+Theorem C08_no_atom_lost_or_duplicated : forall st ps st',
+  sim_paths st ps = AOk st' -> Permutation (atoms st') (atoms st) /\ traps st' = traps st.
+Proof. exact sim_conserves. Qed.
+
+Theorem C08_release_only_onto_vacant_trap_sites : forall st sp st' a,
+  drop1 st sp = AOk st' -> held_find (fst sp) (held st) = Some a ->
+  is_trap st (snd sp) = true /\ occ_find (snd sp) (occ st) = None /\ occ_find (snd sp) (occ st') = Some a.
+Proof. exact accepted_release. Qed.
+
+Theorem C08_spots_light_up_only_on_trap_sites : forall st sp st', pick1 st sp = AOk st' -> is_trap st (snd sp) = true.
+Proof. exact accepted_pick. Qed.
+
+Theorem C08_jump_while_holding_is_refused : forall st nx ny w,
+  held st <> [] -> length (fst w) = nx -> length (snd w) = ny ->
+  same_place (xon st) (fst w) && same_place (yon st) (snd w) = false ->
+  sim_waypoint st true nx ny w = AErr EJump.
+Proof. exact jump_refused. Qed.
+
+Theorem C08_wrong_dimensions_are_refused : forall st first nx ny w,
+  (length (fst w) <> nx \/ length (snd w) <> ny) -> sim_waypoint st first nx ny w = AErr EDims.
+Proof. exact wrong_dimensions_refused. Qed.
+
+(* a CZ-move shaped program on a 2x1 selection: out along an L-shaped path, back along its reversal *)
+Example C08_example :
+  let ALL := SSlice None None None in
+  let st0 := mkast [(0, 0); (10, 0); (20, 0); (30, 0)] [((0, 0), 1%nat); ((20, 0), 2%nat); ((10, 0), 3%nat)] [] [] [] in
+  let fwd := mkspath 2 1 [SWay [([0; 20], [0])]; SSwitch On ALL ALL; SWay [([0; 20], [0]); ([2; 22], [2]); ([12; 32], [2])]] in
+  let bwd := mkspath 2 1 [SWay [([12; 32], [2]); ([2; 22], [2]); ([0; 20], [0])]; SSwitch Off ALL ALL; SWay [([0; 20], [0])]] in
+  let swapped := mkspath 2 1 [SWay [([10; 30], [0])]; SSwitch Off ALL ALL; SWay [([10; 30], [0])]] in
+  show_sim (sim_paths st0 [fwd; bwd]) = "ok held=0 occ=[1@0/1,0/1,2@20/1,0/1,3@10/1,0/1]"%string
+  /\ sim_paths st0 [fwd; swapped] = AErr EJump.
+Proof. vm_compute. split; reflexivity. Qed.
+
+Print Assumptions C08_no_atom_lost_or_duplicated.
+Print Assumptions C08_release_only_onto_vacant_trap_sites.
+Print Assumptions C08_spots_light_up_only_on_trap_sites.
+Print Assumptions C08_jump_while_holding_is_refused.
+Print Assumptions C08_wrong_dimensions_are_refused.
